@@ -4,7 +4,9 @@
    The model is tied to the running engine by harness/props/c12.py on every run. *)
 From Coq Require Import ZArith List Bool Sorting.Sorted.
 Import ListNotations.
-Require Import Grist.Model.Summary Grist.Proofs.Summary_proofs.
+Require Import Grist.Model.Summary Grist.Model.SummaryChain Grist.Proofs.Summary_proofs
+  Grist.Proofs.SummaryChain_proofs Grist.Proofs.Summary_inc_proofs
+  Grist.Proofs.Summary_undo_proofs.
 Open Scope Z_scope.
 
 (* ------------------------------------------------------------------ the property, at full strength *)
@@ -274,3 +276,262 @@ Example C12_example_order :
   settle_rounds ex_kinds [] [] [([1; 3], ex_src, [])] =
   Some [ (1, [AInt 1; AStr [97]], [1]); (2, [AInt 1; AStr [98]], [1; 3]) ].
 Proof. split; vm_compute; reflexivity. Qed.
+
+(* ------------------------------------------------------------------ the invariant between bundles *)
+
+(* `settled`: every record's entry in the helper column holds exactly the rows its keys find, and no group is
+   empty.  It implies the property ... *)
+Theorem C12_settled_is_exact : forall kinds src summ hs,
+  settled kinds src summ hs -> NoDup (map fst summ) -> no_raise kinds src ->
+  exact_group_by kinds src (with_groups summ hs) /\
+  (forall row, In row (with_groups summ hs) -> ogroup row <> []).
+Proof.
+  intros kinds src summ hs Hs Hids Hg. destruct (settled_exact _ _ _ _ Hs Hids Hg) as [H1 [H2 H3]].
+  split; [split; [exact H1|split; [exact H2|]]|].
+  - intros i k g Hin. exact (proj1 (H3 i k g Hin)).
+  - intros [[i k] g] Hin. exact (proj2 (H3 i k g Hin)).
+Qed.
+
+(* ... and the engine's incremental loop re-establishes it after every bundle: if the previous bundle ended
+   settled, the bundle changed source records (any cells, additions, removals) and appended rows to the summary
+   table, and the first round re-evaluates at least the helper cells of the changed or new records ("a changed
+   group-by cell dirties its own helper cell" - the one fact about the dependency tracking that is used), then
+   whatever else is re-evaluated, in however many rounds, the loop ends settled, with the table that full
+   re-evaluation gives. *)
+Theorem C12_bundle_keeps_settled : forall kinds src summ hs src' extra d rest,
+  settled kinds src summ hs -> NoDup (map fst src') ->
+  (forall r, In r src' -> mem_z (fst r) d = false -> In r src) -> rest <> [] ->
+  exists s' hs', settle_trace_st kinds hs src' (summ ++ extra) (d :: rest) = Some (s', hs') /\
+                 settled kinds src' s' hs' /\
+                 settle_loop 2 kinds hs src' (summ ++ extra) = Some (with_groups s' hs').
+Proof.
+  intros kinds src summ hs src' extra d rest Hs Hnd Hd Hrest.
+  pose proof (clean_valid_after_edit kinds src summ hs src' extra d Hs Hd) as Hv.
+  destruct (settled_after_bundle kinds hs src' (summ ++ extra) d rest Hnd Hv Hrest) as [s2 [hs2 [H1 [H2 [H3 _]]]]].
+  exists s2, hs2. split; [exact H1|split; [exact H2|exact H3]].
+Qed.
+
+(* Hence every state reached from the empty document by such bundles is settled, and an exact group-by. *)
+Theorem C12_history_exact : forall kinds src summ hs,
+  reachable kinds src summ hs -> no_raise kinds src ->
+  settled kinds src summ hs /\ exact_group_by kinds src (with_groups summ hs).
+Proof.
+  intros kinds src summ hs H Hg. destruct (reachable_settled _ _ _ _ H) as [Hs Hids].
+  split; [exact Hs|]. exact (proj1 (C12_settled_is_exact _ _ _ _ Hs Hids Hg)).
+Qed.
+
+Example C12_example_reachable :
+  reachable ex_kinds ex_src
+    [ (1, [AInt 1; AStr [97]]); (2, [AInt 1; AStr [98]]); (3, [AInt 1; AStr []]) ]
+    [ (1, [1; 2]); (2, [3]); (3, [2]); (4, []) ].
+Proof.
+  eapply (reach_bundle ex_kinds [] [] [] ex_src [] [1; 2; 3; 4] [[]]).
+  - apply reach_empty.
+  - repeat constructor; simpl; intuition discriminate.
+  - constructor.
+  - intros r [<-|[<-|[<-|[<-|[]]]]] Hd; discriminate Hd.
+  - discriminate.
+  - vm_compute. reflexivity.
+Qed.
+
+(* ------------------------------------------------------------------ undo *)
+
+(* An undo bundle puts source cells and summary rows back by doc actions and runs the same settle loop; helper
+   cells are formula cells, they are re-evaluated, not restored.  If the state A being restored was settled and
+   the undo re-evaluates every helper cell whose entry is not the one it had in A, the loop ends with exactly the
+   table of A - same row ids, keys and groups: no summary row is created a second time and none is removed a
+   second time. *)
+Theorem C12_undo_restores_table : forall kinds srcA summA hsA hsB d rest,
+  settled kinds srcA summA hsA -> no_raise kinds srcA ->
+  (forall r, In r srcA -> mem_z (fst r) d = false ->
+             forall i, In i (entry hsB (fst r)) <-> In i (entry hsA (fst r))) ->
+  rest <> [] ->
+  settle_trace kinds hsB srcA summA (d :: rest) = Some (with_groups summA hsA).
+Proof. exact undo_restores. Qed.
+
+(* Forward and back: it is enough that the undo re-evaluates the helper cells the forward bundle evaluated (those
+   of the changed records among them). *)
+Theorem C12_undo_roundtrip : forall kinds srcA summA hsA srcB summIn dirtiesF summB hsB d rest,
+  settled kinds srcA summA hsA -> no_raise kinds srcA -> NoDup (map fst srcB) ->
+  settle_trace_st kinds hsA srcB summIn dirtiesF = Some (summB, hsB) ->
+  (forall r, In r srcA -> mem_z (fst r) d = false ->
+             In r srcB /\ forall dF, In dF dirtiesF -> mem_z (fst r) dF = false) ->
+  rest <> [] ->
+  settle_trace kinds hsB srcA summA (d :: rest) = Some (with_groups summA hsA).
+Proof. exact undo_roundtrip. Qed.
+
+(* Engine.is_triggered_by_table_action: the guarded formula never adds a row, and where every key has its row
+   (as after the undo's doc actions) it is the unguarded formula.  (The harness counts how often the guard is
+   true while a helper cell is evaluated: never, in this tree.) *)
+Theorem C12_guard_never_adds : forall kinds stale summ cells,
+  fst (helper_guarded kinds stale summ cells) = summ.
+Proof. exact helper_guarded_keeps_table. Qed.
+
+Theorem C12_guard_same_when_rows_present : forall kinds stale summ cells,
+  (forall ks k, row_keys kinds cells = Some ks -> In k ks -> first_match summ k <> None) ->
+  helper_guarded kinds stale summ cells = helper kinds stale summ cells.
+Proof. intros. rewrite helper_is_list. apply helper_guarded_same. assumption. Qed.
+
+(* record 1 changes from [b; a] to [c]: row 1 (key a) goes, row 4 (key c) comes; the undo brings back row 1 with
+   its id and removes row 4, and ends with the table of C12_example_reachable *)
+Example C12_example_undo :
+  let summA := [ (1, [AInt 1; AStr [97]]); (2, [AInt 1; AStr [98]]); (3, [AInt 1; AStr []]) ] in
+  let hsA := [ (1, [1; 2]); (2, [3]); (3, [2]); (4, []) ] in
+  let srcB := (1, [CAtom (AInt 1); CSeq [AStr [99]]]) :: tl ex_src in
+  let summB := [ (2, [AInt 1; AStr [98]]); (3, [AInt 1; AStr []]); (4, [AInt 1; AStr [99]]) ] in
+  let hsB := [ (1, [4]); (2, [3]); (3, [2]); (4, []) ] in
+  settle_trace_st ex_kinds hsA srcB summA [[1]; []] = Some (summB, hsB) /\
+  settle_trace ex_kinds hsB ex_src summA [[1]; []] = Some (with_groups summA hsA) /\
+  settled ex_kinds ex_src summA hsA.
+Proof.
+  cbv zeta. split; [vm_compute; reflexivity|]. split; [vm_compute; reflexivity|].
+  exact (proj1 (reachable_settled _ _ _ _ C12_example_reachable)).
+Qed.
+
+(* ------------------------------------------------------------------ chained summary tables *)
+
+(* k levels: the source table of level i+1 groups by Reference / Reference List columns into the summary table
+   of level i; removing a row of level i rewrites the references to it one level up (source cells and key
+   cells).  The loop of apply_user_actions (every level brought up to date, then all rows with empty groups
+   removed, repeated while anything was removed) ends after at most k+1 rounds, whatever the tables, entries and
+   references were before ... *)
+Theorem C12_chain_terminates : forall c, Forall wf_level c ->
+  exists c', forall fuel, (S (length c) <= fuel)%nat -> chain_loop fuel c = Some c'.
+Proof. exact chain_terminates. Qed.
+
+(* ... and when it ends, nothing is left to remove and every level is an exact group-by of its source as the
+   clean-up left it (no helper formula raising at that level). *)
+Theorem C12_chain_exact : forall fuel c c' lv,
+  chain_loop fuel c = Some c' -> Forall wf_level c -> In lv c' -> no_raise (lkinds lv) (lsrc lv) ->
+  exact_group_by (lkinds lv) (lsrc lv) (lrows lv) /\ (forall row, In row (lrows lv) -> ogroup row <> []).
+Proof.
+  intros fuel c c' lv H Hwf Hin Hg. destruct (chain_level_exact _ _ _ _ H Hwf Hin Hg) as [H1 [H2 H3]].
+  split; [split; [exact H1|split; [exact H2|]]|].
+  - intros i k g Hi. exact (proj1 (H3 i k g Hi)).
+  - intros [[i k] g] Hi. exact (proj2 (H3 i k g Hi)).
+Qed.
+
+Theorem C12_chain_quiet_at_end : forall fuel c c',
+  chain_loop fuel c = Some c' -> Forall wf_level c -> Forall wf_level c' /\ chain_quiet c' = true.
+Proof. exact chain_loop_result. Qed.
+
+(* The bound is attained.  Two levels (the seeded demo): T = {2:y, 3:y} after its only 'x' record was removed,
+   T_summary_A = {1:x, 2:y}; U.R refers to T_summary_A, U = {1:0, 2:1, 3:2, 4:1}, U_summary_R = {1:0, 2:1, 3:2}.
+   Round 1 removes row 1 of T_summary_A; that turns U.R = 1 into 0 and the key of row 2 of U_summary_R into 0;
+   only round 2 finds that row empty and removes it; round 3 finds nothing.  With ONE removal round (`if` instead
+   of `while`) a second row with key 0 and an empty group is left. *)
+Definition ex_chain2 : list level :=
+  [ mkLevel [KScalar] [false] [(2, [2]); (3, [2])]
+            [(2, [CAtom (AStr [121])]); (3, [CAtom (AStr [121])])]
+            [(1, [AStr [120]]); (2, [AStr [121]])];
+    mkLevel [KScalar] [true] [(1, [1]); (2, [2]); (3, [3]); (4, [2])]
+            [(1, [CAtom (AInt 0)]); (2, [CAtom (AInt 1)]); (3, [CAtom (AInt 2)]); (4, [CAtom (AInt 1)])]
+            [(1, [AInt 0]); (2, [AInt 1]); (3, [AInt 2])] ].
+
+Example C12_chain_bound_attained :
+  Forall wf_level ex_chain2 /\
+  chain_loop 2 ex_chain2 = None /\
+  map lrows (chain_step [] (chain_step [] ex_chain2)) =
+    [ [(2, [AStr [121]], [2; 3])]; [(1, [AInt 0], [1; 2; 4]); (3, [AInt 2], [3])] ] /\
+  (exists c', chain_loop 3 ex_chain2 = Some c' /\ c' = chain_step [] (chain_step [] ex_chain2)) /\
+  (* after the single removal round of the `if` variant: *)
+  map lrows (chain_step [] ex_chain2) =
+    [ [(2, [AStr [121]], [2; 3])]; [(1, [AInt 0], [1; 2; 4]); (2, [AInt 0], []); (3, [AInt 2], [3])] ].
+Proof.
+  split; [|split; [|split; [|split]]]; try (vm_compute; reflexivity).
+  - repeat constructor; simpl; intuition discriminate.
+  - eexists. split; vm_compute; reflexivity.
+Qed.
+
+(* three levels need four rounds: a third table W refers to U_summary_R *)
+Definition ex_chain3 : list level :=
+  ex_chain2 ++
+  [ mkLevel [KScalar] [true] [(1, [1]); (2, [2])]
+            [(1, [CAtom (AInt 0)]); (2, [CAtom (AInt 2)])]
+            [(1, [AInt 0]); (2, [AInt 2])] ].
+
+Example C12_chain_three_levels :
+  chain_loop 3 ex_chain3 = None /\ chain_loop 4 ex_chain3 <> None /\
+  map lrows (chain_step [] (chain_step [] (chain_step [] ex_chain3))) =
+    [ [(2, [AStr [121]], [2; 3])]; [(1, [AInt 0], [1; 2; 4]); (3, [AInt 2], [3])]; [(1, [AInt 0], [1; 2])] ].
+Proof. split; [|split]; vm_compute; try reflexivity. discriminate. Qed.
+
+(* The hypothesis of C12_incremental_is_full is checked on the running engine: the harness evaluates clean_validb
+   on the first round of every recorded bundle and reports how often it does not hold. *)
+Theorem C12_clean_valid_monitor_sound : forall kinds d prev src summ,
+  clean_validb kinds d prev src summ = true -> clean_valid kinds d prev src summ.
+Proof. exact clean_validb_sound. Qed.
+
+(* The second fact about the dependency tracking, for tables whose keys are rewritten in place (reference
+   clean-up of chained summary tables, conversions of the group-by column): if the round re-evaluates the helper
+   cells of the changed records and of the records that have the old or the new key of a rewritten row among
+   their keys, the entries of all other records are up to date - the hypothesis of C12_incremental_is_full holds
+   again.  (Rows appended to the summary table never invalidate an entry: C12_bundle_keeps_settled.) *)
+Theorem C12_rekey_invalidation_suffices : forall kinds src summ hs src' summ' d,
+  settled kinds src summ hs -> rekeyed summ summ' ->
+  (forall r, In r src' -> mem_z (fst r) d = false ->
+             In r src /\ forall k, In k (keys_of kinds (snd r)) -> unaffected summ summ' k) ->
+  clean_valid kinds d hs src' summ'.
+Proof. exact clean_valid_after_rekey. Qed.
+
+Example C12_example_rekey :
+  let summ := [(1, [AInt 0]); (2, [AInt 1]); (3, [AInt 2])] in
+  let summ' := [(1, [AInt 0]); (2, [AInt 0]); (3, [AInt 2])] in
+  rekeyed summ summ' /\ unaffected summ summ' [AInt 2] /\ ~ unaffected summ summ' [AInt 0].
+Proof.
+  cbv zeta. split; [repeat constructor|]. split.
+  - constructor; [left; reflexivity|]. constructor; [right; split; discriminate|].
+    constructor; [left; reflexivity|constructor].
+  - intros H. inversion H as [|a b l l' _ H2]; subst. inversion H2 as [|a' b' m m' H3 _]; subst.
+    destruct H3 as [E|[_ E]]; [discriminate E|]. apply E. reflexivity.
+Qed.
+
+(* ------------------------------------------------------------------ the incremental engine on a chain *)
+
+(* Every level re-evaluates, in every round, only the helper cells in its dirty set.  If at every round and level
+   the entries left alone are up to date (chain_cv: clean_valid everywhere - what the lookup invalidation has to
+   deliver, C12_rekey_invalidation_suffices; evaluated on all recorded rounds by the harness), the incremental
+   loop does what chain_loop does, round by round: same tables, same removals ... *)
+Theorem C12_chain_incremental_is_full : forall dss c c0,
+  Forall2 lequiv c c0 -> chain_cv dss c ->
+  match chain_loop_d dss c with
+  | Some (ds, c') => exists c0', chain_loop (length dss) c0 = Some c0' /\ Forall2 lequiv c' c0' /\
+                                 Forall2 lcv ds c' /\ chain_quiet_d ds c' = true
+  | None => chain_loop (length dss) c0 = None
+  end.
+Proof. exact chain_inc_is_full. Qed.
+
+(* ... so it ends within k+1 rounds ... *)
+Theorem C12_chain_incremental_terminates : forall dss c,
+  Forall wf_level c -> chain_cv dss c -> (S (length c) <= length dss)%nat -> chain_loop_d dss c <> None.
+Proof. exact chain_inc_terminates. Qed.
+
+(* ... with every level an exact group-by of its source. *)
+Theorem C12_chain_incremental_exact : forall dss c ds c' d lv,
+  Forall wf_level c -> chain_cv dss c -> chain_loop_d dss c = Some (ds, c') ->
+  In (d, lv) (combine ds c') -> no_raise (lkinds lv) (lsrc lv) ->
+  exact_group_by (lkinds lv) (lsrc lv) (lrows_d d lv) /\
+  (forall row, In row (lrows_d d lv) -> ogroup row <> []).
+Proof.
+  intros dss c ds c' d lv Hwf Hcv Hl Hin Hg.
+  destruct (chain_inc_exact _ _ _ _ _ _ Hwf Hcv Hl Hin Hg) as [H1 [H2 H3]].
+  split; [split; [exact H1|split; [exact H2|]]|].
+  - intros i k g Hi. exact (proj1 (H3 i k g Hi)).
+  - intros [[i k] g] Hi. exact (proj2 (H3 i k g Hi)).
+Qed.
+
+(* the two-level example, incrementally: nothing is dirty in round 1 (the 'x' record is gone), the clean-up after
+   round 1 dirties records 2 and 4 of U, nothing is dirty in round 3 *)
+Example C12_chain_incremental_example :
+  let dss := [ [[]; []]; [[]; [2; 4]]; [[]; []] ] in
+  chain_cv dss ex_chain2 /\
+  (exists ds c', chain_loop_d dss ex_chain2 = Some (ds, c') /\
+     map (fun dl => lrows_d (fst dl) (snd dl)) (combine ds c') =
+       [ [(2, [AStr [121]], [2; 3])]; [(1, [AInt 0], [1; 2; 4]); (3, [AInt 2], [3])] ]).
+Proof.
+  cbv zeta. split.
+  - cbn [chain_cv]. repeat split;
+      match goal with |- Forall2 lcv _ ?c => let c' := eval vm_compute in c in change c with c' end;
+      repeat constructor; unfold lcv; apply clean_validb_sound; vm_compute; reflexivity.
+  - eexists. eexists. split; vm_compute; reflexivity.
+Qed.
